@@ -116,8 +116,8 @@ def _subclasscheck_tuple(cls, subcls):
     if not cls_args:  # cls is base Tuple
         return True
 
-    if not subcls_args:
-        return cls_args[0] is typing.Any
+    if not subcls_args:  # subcls is base Tuple, a subtype only of Tuple[Any, ...]
+        return cls_args[0] is typing.Any and cls_args[-1] is Ellipsis
 
     if cls_args[-1] is Ellipsis:  # cls variadic
         if subcls_args[-1] is Ellipsis:  # both variadic
